@@ -169,7 +169,14 @@ def execute(sc):
                               error_spec=sc["error"], control_spec=sc["control"], fault=dict(sc["fault"]), rec=Recorder())
         e1 = [x[3] for x in r.err.log]
         e2 = [x[3] for x in r2.err.log]
-        if len(e1) != len(e2) or max(abs(a / b_ - 1) for a, b_ in zip(e1, e2)) > 1e-9:
+        def reldiff(a, b_):
+            if a == b_:
+                return 0.0
+            if not (math.isfinite(a) and math.isfinite(b_)) or a == 0 or b_ == 0:
+                return float("inf")
+            return abs(a / b_ - 1)
+
+        if len(e1) != len(e2) or max(reldiff(a, b_) for a, b_ in zip(e1, e2)) > 1e-9:
             viol.append({"inv": "ERR-scale-invariance", "msg": f"acceptance quantities change when the prior's base scale is multiplied by 2^{sc['twin_k']}"})
         probes["twin_rescaled"] = 1
     ab = r.rec.abstract_string()
